@@ -1,6 +1,8 @@
 import PlinioVerif.Props.C01
 import PlinioVerif.Props.C04
 import PlinioVerif.Lemmas.PIT.TimeLink
+import PlinioVerif.Lemmas.PIT.OpenSeed
+import PlinioVerif.Props.C01Net
 import Mathlib.Tactic.FieldSimp
 /-!
 # C07 — importing a model is behaviour-preserving and leaves the user model intact
@@ -53,5 +55,62 @@ theorem bn_fold_sum {F : Type} [Field F] (ws xs : List F) (s : F) :
     cases xs with
     | nil => simp
     | cons x xs => simp only [List.zipWith_cons_cons, List.sum_cons, ih]; ring
+
+/-! ### network level -/
+
+variable {V : Type} [AddCommMonoid V]
+
+/-- **Importing preserves the function, and exporting at once returns it**: with every masker
+open (all parameters 1, as right after import), every node of the PIT network (eval mode) and
+every node of the network exported at once equal the same node of the seed network — for every
+supported program of the grammar (residual sums, concatenations, flatten, depthwise, excluded
+layers), every abstract layer semantics and every input.  The BatchNorm kept as a sub-layer is
+the per-channel post-map; the folded variant is `bn_fold_eq`. -/
+theorem import_preserves_function (σ : Sem V) (inp : ℕ → List V) (p : Prog) (l : List ℕ)
+    (α : ℕ → List Rat) (hl : computeLabels p = some l) (hws : wellShaped p = true)
+    (hsup : supported p = true) (hsem : ∀ n (hn : n < p.length), SemOK σ inp (p[n], n))
+    (hα : OpenAlpha p l α) :
+    let ms := aliveMasks p l α
+    (runBoth σ ms inp p.zipIdx).1 = runSeed σ inp p.zipIdx ∧
+    ∀ n < p.length, gv (runBoth σ ms inp p.zipIdx).2 n = gv (runSeed σ inp p.zipIdx) n := by
+  intro ms
+  have hco := coherent_of_bookkeeping σ inp p l α hl hws hsup hsem
+  have hall := aliveMasks_open p l α hws hα
+  have hw := fun n hn => widthOK_of_bookkeeping p l α hl hws n hn
+  have htake : p.zipIdx.take p.length = p.zipIdx := by apply List.take_of_length_le; simp
+  have h1 := pit_open_eq_seed σ ms inp p hco hall hw p.length (le_refl _)
+  rw [htake] at h1
+  refine ⟨h1, fun n hn => ?_⟩
+  rw [← h1]
+  exact C01Net.net_export_eq_on_frozen σ inp p l α hl hws hsup hsem n hn (hall n hn)
+
+/-- non-vacuity: long enough all-ones parameter vectors open every masker of any program -/
+theorem openAlpha_ones (p : Prog) (l : List ℕ) :
+    OpenAlpha p l (fun _ => List.replicate ((widths p).foldl max 0) 1) := by
+  intro g grp hg c hc
+  have hle : ∀ (ws : List ℕ) (i a : ℕ), ws.getD i 0 ≤ ws.foldl max a := by
+    intro ws
+    induction ws with
+    | nil => intro i a; simp
+    | cons w ws ih =>
+      intro i a
+      cases i with
+      | zero =>
+        simp only [List.getD_cons_zero, List.foldl_cons]
+        have : ∀ (xs : List ℕ) (b : ℕ), b ≤ xs.foldl max b := by
+          intro xs; induction xs with
+          | nil => intro b; simp
+          | cons x xs ihx => intro b; simp only [List.foldl_cons]; exact le_trans (le_max_left b x) (ihx _)
+        exact le_trans (le_max_right a w) (this ws _)
+      | succ i => simp only [List.getD_cons_succ, List.foldl_cons]; exact ih i _
+  have hw : grp.width ≤ (widths p).foldl max 0 := by
+    unfold groupOf at hg
+    simp only at hg
+    split at hg
+    · cases hg
+    · cases hg; exact hle _ _ _
+  unfold ofList
+  rw [List.getD_eq_getElem?_getD, List.getElem?_replicate]
+  simp [show c < (widths p).foldl max 0 by omega]
 
 end PlinioVerif.C07
